@@ -42,6 +42,14 @@ var c08Variants = []c08Variant{
 	{name: "accept-and-infer-next-history", keys: []string{c08Infer}, records: false},
 	{name: "interrupt", keys: []string{"\x03"}, records: false},
 	{name: "abort-C-g", keys: []string{"\x07"}, records: false},
+	// two calls on one Shell: whatever the first call did with the line (recorded it, replayed
+	// history instead, returned it with an error), the same text accepted by the next call is
+	// judged against each source's contents at that moment ("<text>" = the case's text again)
+	{name: "accept-then-same", keys: []string{"\r"}, records: true, second: []string{"\x15", "<text>", "\r"}},
+	{name: "operate-then-same", keys: []string{c08Oper}, records: false, second: []string{"\x15", "<text>", "\r"}},
+	{name: "infer-then-same", keys: []string{c08Infer}, records: false, second: []string{"\x15", "<text>", "\r"}},
+	{name: "interrupt-then-same", keys: []string{"\x03"}, records: false, second: []string{"\x15", "<text>", "\r"}},
+	{name: "operate-then-other", keys: []string{c08Oper}, records: false, second: []string{"\x15", "zz", "\r"}},
 }
 
 type c08Case struct {
@@ -111,7 +119,17 @@ func c08Job(id int, cs c08Case) harness.Job {
 	ans = append(ans, Keys(cs.variant.keys...)...)
 	calls := [][]harness.Answer{ans}
 	if cs.variant.second != nil {
-		calls = append(calls, Keys(cs.variant.second...))
+		var sec []string
+		for _, k := range cs.variant.second {
+			if k == "<text>" {
+				if cs.text == "" {
+					continue
+				}
+				k = cs.text
+			}
+			sec = append(sec, k)
+		}
+		calls = append(calls, Keys(sec...))
 	}
 	return harness.Job{ID: id, Cfg: cfg, Calls: calls, Want: harness.Want{HistAfter: true}}
 }
@@ -140,7 +158,8 @@ func c08Verdict(cs c08Case, t *harness.Trace) (fp, what string, recorded bool) {
 		text := call.Line
 		for i := range cs.kinds {
 			name := srcName(cs, i)
-			want, either := c08Expect(before[i], text, cs.variant.records, call.Err == "", cs.size)
+			records := cs.variant.records || ci > 0 // a second call is always ended by accept-line
+			want, either := c08Expect(before[i], text, records, call.Err == "", cs.size)
 			got := call.Hist[name]
 			ok := eqStrings(trimAll(got), trimAll(want)) || (either && eqStrings(trimAll(got), trimAll(before[i])))
 			if !ok {
